@@ -11,6 +11,7 @@ pub mod type_annotation;
 
 mod names {
 	use java_string::{JavaCodePoint, JavaStr};
+	use crate::tree::field::FieldDescriptorSlice;
 
 	const DOT: JavaCodePoint = JavaCodePoint::from_char('.');
 	const SEMICOLON: JavaCodePoint = JavaCodePoint::from_char(';');
@@ -22,9 +23,7 @@ mod names {
 	/// Checks if a class name is valid according to JVMS 4.2.1 (also accepting array class names).
 	pub(super) fn is_valid_class_name(x: &JavaStr) -> bool {
 		if x.starts_with('[') {
-			// TODO: max 255 [ are allowed
-			// TODO: must be a field desc
-			true
+			is_valid_arr_class_name(x)
 		} else {
 			// a list of identifiers split by /
 			// each identifier must be an unqualified name
@@ -34,13 +33,8 @@ mod names {
 
 	/// Checks if a class name is a valid array class name according to JVMS 4.2.1
 	pub(super) fn is_valid_arr_class_name(x: &JavaStr) -> bool {
-		if x.starts_with('[') {
-			// TODO: max 255 [ are allowed
-			// TODO: must be a field desc
-			true
-		} else {
-			false
-		}
+		// an array class name is an array field descriptor (JVMS 4.3.2): 1 to 255 `[`, then a base type or `L` ClassName `;`
+		x.starts_with('[') && <&FieldDescriptorSlice>::try_from(x).and_then(|desc| desc.parse()).is_ok()
 	}
 
 	/// Checks if a class name is a valid object class name according to JVMS 4.2.1
